@@ -76,6 +76,11 @@ class AffinityMonitor(Monitor):
                 if routing_key != self.shared and routing_key != self.inst_queue(node):
                     self.add(PROP, "start-event-queue", "start event of %s published by %s to %r" % (arn, node, routing_key))
                 kid = arn.split(":")[6] if arn.count(":") >= 7 else ""
+                if not kid.startswith("kid-") and routing_key != self.shared:
+                    # an execution started through the API (or by a client): its start event goes to the shared queue,
+                    # whichever instance's front end took the call and whatever else that instance is publishing then
+                    self.add(PROP, "start-event-queue", "start event of %s published by %s to %r, not the shared queue %r" % (
+                        arn, node, routing_key, self.shared), witness="api-start")
                 if kid in ("kid-sync", "kid-sync2", "kid-sdk", "kid-token") and routing_key != self.inst_queue(node):
                     # the launching Task waits for this child: it has to run on the instance that holds that Task
                     self.add(PROP, "sync-child-start-queue", "start event of the synchronous child %s published by %s to "
